@@ -233,7 +233,8 @@ def describe(ty: Ty) -> str:
     if k == 'lit':
         return f"lit{list(ty.x['vals'])!r}"
     if k == 'enum':
-        return f"enum{[v for (_, v) in ty.x['members']]!r}"
+        fl = ty.x.get('flavour') or 'plain'
+        return f"enum{'' if fl == 'plain' else '<' + fl + '>'}{[v for (_, v) in ty.x['members']]!r}"
     if k == 'cond':
         return f"cond[{describe(ty.a[0])}; {', '.join(c['name'] for c in ty.x['conds'])}]"
     if k == 'tagged':
@@ -261,6 +262,8 @@ def skeleton(ty: Ty, depth=4) -> str:
         extra = ty.x.get('res', '')
     if ty.k == 'tagged':
         extra = str(ty.x['external'])
+    if ty.k == 'enum' and (ty.x.get('flavour') or 'plain') != 'plain':
+        extra = '<' + ty.x['flavour'] + '>'
     return f"{ty.k}{extra}(" + ','.join(skeleton(c, depth - 1) for c in kids) + ")" if kids else f"{ty.k}{extra}"
 
 
@@ -291,7 +294,19 @@ def _mk_sub(ty):
     return type(f"My{base.__name__.title()}{next(_serial)}", (base,), {})
 
 
+_ENUM_BASES = {'plain': (enum.Enum,), 'strmix': (str, enum.Enum), 'StrEnum': (enum.StrEnum,), 'intmix': (int, enum.Enum),
+               'IntEnum': (enum.IntEnum,), 'floatmix': (float, enum.Enum)}
+
+
 def _mk_enum(ty):
+    bases = _ENUM_BASES[ty.x.get('flavour') or 'plain']
+    name = f"E{next(_serial)}"
+    ns = enum.EnumMeta.__prepare__(name, bases)
+    for n, v in ty.x['members']:
+        try:
+            ns[n] = v
+        except TypeError:
+            pass
     if ty.x.get('missing_hook'):
         # an Enum with a _missing_ hook: calling the class resolves more values than the members' own values
         def _missing_(cls, value):
@@ -299,15 +314,9 @@ def _mk_enum(ty):
                 if str(m.value).lower() == str(value).lower() or m.name.lower() == str(value).lower():
                     return m
             return None
-        ns = enum.EnumMeta.__prepare__(f"E{next(_serial)}", (enum.Enum,))
-        for n, v in ty.x['members']:
-            try:
-                ns[n] = v
-            except TypeError:
-                pass
         ns['_missing_'] = classmethod(_missing_)
-        return enum.EnumMeta(f"E{next(_serial)}", (enum.Enum,), ns)
-    return enum.Enum(f"E{next(_serial)}", [(n, v) for (n, v) in ty.x['members']])
+    ns['__module__'] = __name__
+    return enum.EnumMeta(name, bases, ns)
 
 
 def py_class(ty: Ty):
